@@ -477,6 +477,13 @@ EGLPNUM_TYPENAME_QSLIB_INTERFACE int EGLPNUM_TYPENAME_QSopt_pivotin_row (
 	rval = grab_basis (p);
 	CHECKRVALG (rval, CLEANUP);
 
+	if (basismod)
+	{
+		/* the cached solution belongs to the basis that was just left */
+		free_cache (p);
+		p->qstatus = QS_LP_UNSOLVED;
+	}
+
 CLEANUP:
 
 	EG_RETURN (rval);
@@ -517,6 +524,13 @@ EGLPNUM_TYPENAME_QSLIB_INTERFACE int EGLPNUM_TYPENAME_QSopt_pivotin_col (
 
 	rval = grab_basis (p);
 	CHECKRVALG (rval, CLEANUP);
+
+	if (basismod)
+	{
+		/* the cached solution belongs to the basis that was just left */
+		free_cache (p);
+		p->qstatus = QS_LP_UNSOLVED;
+	}
 
 CLEANUP:
 
